@@ -1,6 +1,74 @@
 """C01 — Get returns only values that were written under that very key."""
 from ..cacheprop import CacheProp
+from ..core import Case
 from .. import cachegen
+
+M64 = (1 << 64) - 1
+INT_KINDS = {"uint64": (0, M64), "byte": (0, 255), "uint": (0, M64), "int": (-(1 << 63), (1 << 63) - 1),
+             "int32": (-(1 << 31), (1 << 31) - 1), "uint32": (0, (1 << 32) - 1), "int64": (-(1 << 63), (1 << 63) - 1)}
+
+
+def _payload(rng, kind):
+    if kind in ("string", "bytes"):
+        n = rng.choice([0, 1, 2, 3, 4, 5, 7, 8, 9, 12, 15, 16, 17, 31, 32, 33, 36, 40, 63, 64, 65, 95, 96, 100, 131])
+        r = rng.random()
+        if r < 0.2:
+            b = bytes([rng.choice([0, 255, 0x61])] * n)
+        elif r < 0.4:
+            b = bytes((i * 7 + 1) & 255 for i in range(n))
+        else:
+            b = bytes(rng.getrandbits(8) for _ in range(n))
+        return b.hex() if b else "-"
+    lo, hi = INT_KINDS[kind]
+    r = rng.random()
+    if r < 0.4:
+        return str(rng.choice([lo, hi, 0, 1, min(hi, 255), lo + 1, hi - 1, max(lo, -1)]))
+    return str(rng.randint(lo, hi))
+
+
+def _near(rng, kind, p):
+    """a different key of the same kind, close to p"""
+    if kind in ("string", "bytes"):
+        b = bytearray(bytes.fromhex(p) if p != "-" else b"")
+        r = rng.random()
+        if not b or r < 0.25:
+            b.append(rng.getrandbits(8))
+        elif r < 0.5:
+            b.pop()
+        else:
+            i = rng.randrange(len(b))
+            b[i] ^= 1 << rng.randrange(8)
+        return bytes(b).hex() if b else "-"
+    lo, hi = INT_KINDS[kind]
+    v = int(p)
+    for _ in range(20):
+        w = rng.choice([v + 1, v - 1, v ^ (1 << rng.randrange(8)), rng.randint(lo, hi), -v])
+        if lo <= w <= hi and w != v:
+            return str(w)
+    return str(lo if v != lo else hi)
+
+
+def keyhash_cases(rng, n):
+    kinds = ["string", "bytes"] * 3 + sorted(INT_KINDS)
+    cases = []
+    for j in range(n):
+        ops = []
+        for _ in range(12):
+            kind = rng.choice(kinds)
+            p = _payload(rng, kind)
+            ops.append(["k2h", kind, 0, p])
+            ops.append(["k2h", kind, 1, p])
+            if kind in ("string", "bytes"):
+                ops.append(["k2h", "bytes" if kind == "string" else "string", rng.randrange(2), p])
+        for _ in range(3):
+            kind = rng.choice(kinds)
+            p = _payload(rng, kind)
+            named = rng.randrange(2)
+            ops.append(["e2e", kind, named, p, _near(rng, kind, p)])
+            ops.append(["e2e", kind, named, p, p])
+        cases.append(Case("kh%d" % j, "keyhash", [], ops, tags=["profile:keyhash"]))
+    return cases
+
 
 
 class C01(CacheProp):
@@ -12,7 +80,64 @@ class C01(CacheProp):
             "Set under; non-trivial = an eviction, rejection or blocked call occurred"
             " Plus, as search only: the concurrent stress harness (2..64 goroutines, all calls) with the oracle 'a Get never returns a value that was Set under another key'.")
 
+    def gen(self, rng, n, ctx):
+        return super().gen(rng, n, ctx) + keyhash_cases(rng, max(3, n // 25))
+
+    def annotate(self, case, impl_lines):
+        if case.comp != "keyhash":
+            return super().annotate(case, impl_lines)
+        ops = []
+        for o, l in zip(case.ops, impl_lines):
+            fs = l.split()
+            ops.append(o + " " + fs[2] if o.startswith("k2h") and len(fs) == 3 else o + (" -" if o.startswith("k2h") else ""))
+        ops += [o + " -" if o.startswith("k2h") else o for o in case.ops[len(ops):]]
+        return Case(case.id, case.comp, case.args, ops, case.tags)
+
+    def canon(self, case, i, line):
+        return line if case.comp == "keyhash" else super().canon(case, i, line)
+
+    def nontrivial(self, case, il):
+        return True if case.comp == "keyhash" else super().nontrivial(case, il)
+
+    def keyhash_oracle(self, case, il):
+        """independent of the model: equal contents -> equal pair whatever the kind (string / []byte, named or not); integer
+        kinds -> (uint64(k), 0); distinct keys of a case never share the full pair; with the default hash a value set under
+        one key is not served for another"""
+        fails = []
+        pairs = {}
+        for n, (o, l) in enumerate(zip(case.ops, il)):
+            f, r = o.split(), l.split()
+            if f[0] == "k2h":
+                if len(r) != 3 or not r[0].isdigit():
+                    fails.append("op %d `%s`: KeyToHash failed: %s" % (n, o, l))
+                    continue
+                h, c = int(r[0]), int(r[1])
+                if f[1] in INT_KINDS:
+                    if (h, c) != (int(f[3]) & M64, 0):
+                        fails.append("op %d `%s`: KeyToHash = (%d,%d), expected (%d,0)" % (n, o, h, c, int(f[3]) & M64))
+                    continue
+                if r[2] != "-" and h != int(r[2]):
+                    fails.append("op %d `%s`: primary hash %d is not MemHash(contents) = %s" % (n, o, h, r[2]))
+                for q, (h2, c2) in pairs.items():
+                    if q != f[3] and (c2 == c):
+                        fails.append("op %d `%s`: keys with contents %s and %s get the same conflict hash %d: "
+                                     "a value written under one is served for the other" % (n, o, q, f[3], c))
+                    if q == f[3] and (h2, c2) != (h, c):
+                        fails.append("op %d `%s`: equal contents, different pairs (%d,%d) vs (%d,%d)" % (n, o, h, c, h2, c2))
+                pairs[f[3]] = (h, c)
+            elif f[0] == "e2e":
+                same = f[3] == f[4] or (f[1] in INT_KINDS and int(f[3]) == int(f[4]))
+                if not l.startswith("set=true get1=7,true"):
+                    fails.append("op %d `%s`: default-hash cache did not store / serve the key: %s" % (n, o, l))
+                elif not same and not l.endswith("get2=0,false"):
+                    fails.append("op %d `%s`: Get of a different key returned the value set under the first: %s" % (n, o, l))
+                elif same and not l.endswith("get2=7,true"):
+                    fails.append("op %d `%s`: Get of an equal key missed: %s" % (n, o, l))
+        return fails[:5]
+
     def oracle(self, case, il):
+        if case.comp == "keyhash":
+            return self.keyhash_oracle(case, il)
         fails = []
         tr = cachegen.Trace(case, il)
         seen = {}
